@@ -31,7 +31,7 @@ package push
 //@   ensures [cursor_monotone] c.Dispenser.cursor >= old(c.Dispenser.cursor)
 //@   loop 1 invariant c != nil && c.Dispenser.cursor >= old(c.Dispenser.cursor)
 //@ func parsePushRules
-//@   modifies Dispenser.cursor, Rule.Resources
+//@   modifies Dispenser.cursor, Dispenser.nesting, Rule.Resources, ptr:[]github.com/tmpim/casket/caskethttp/push.Resource, ptr:[]github.com/tmpim/casket/caskethttp/push.ruleOp
 //@   requires c != nil
 //@   loop 1 invariant c != nil && rules != nil && forallT(k, string, has(rules, k) ==> rules[k] != nil)
 //@   loop 2 invariant c != nil && rules != nil && rule != nil && forallT(k, string, has(rules, k) ==> rules[k] != nil) && 1 <= i
